@@ -54,6 +54,25 @@ Theorem C29_passwd_new_password_opens : forall master st cur newid pw maxk,
   exists id m, search_key st' pw maxk false [] = SFound id m.
 Proof. exact passwd_new_password_opens. Qed.
 
+(* The key limit made explicit (max_keys regenerated from global.maxKeys): with up to max_keys proper key
+   files and ANY hint a password opens iff a key has it; a hint naming a key with another password costs
+   nothing, so even the last listed of exactly maxk keys is reached. *)
+Theorem C29_opens_iff_at_limit : forall keys pw hg hm,
+  all_good keys = true -> (length keys <= max_keys)%nat ->
+  ((exists id m, search_key keys pw max_keys hg hm = SFound id m) <-> exists k, In k keys /\ k_pw k = pw).
+Proof. exact opens_iff_at_limit. Qed.
+
+Theorem C29_wrong_hint_costs_nothing : forall keys pw maxk id k,
+  lookup keys id = Some k -> k_good k = true -> k_pw k <> pw ->
+  search_key keys pw maxk true [id] = search_list keys pw maxk 0.
+Proof. exact wrong_hint_costs_nothing. Qed.
+
+Theorem C29_last_key_reached : forall keys k pw maxk id kh,
+  all_good (keys ++ [k]) = true -> length (keys ++ [k]) = maxk -> k_pw k = pw ->
+  lookup (keys ++ [k]) id = Some kh -> k_pw kh <> pw ->
+  exists i m, search_key (keys ++ [k]) pw maxk true [id] = SFound i m.
+Proof. exact last_key_reached. Qed.
+
 (* The verification of a new key (SearchKey with the new password, hint = new key) can succeed through
    ANOTHER key with the same password when the new key file is unreadable.  Whatever the listing
    order and whichever files are readable: the key in use is not removed, or key passwd removes it
@@ -89,7 +108,9 @@ Theorem C29_history_oracle_sound : forall h,
   (forall k, In k (krun (h_master h) (h_before h) (h_trace h)) -> k_master k = h_master h) /\
   h_same_master h = true /\
   (forall pw b, In (pw, b) (h_opens_after h) ->
-     b = pw_present (krun (h_master h) (h_before h) (h_trace h)) pw).
+     b = pw_present (krun (h_master h) (h_before h) (h_trace h)) pw) /\
+  (exists pw, In (pw, true) (h_opens_after h)) /\
+  (h_ret_ok h = true -> forall pw, cmd_newpw (h_cmd h) = Some pw -> In (pw, true) (h_opens_after h)).
 Proof. exact check_history_sound. Qed.
 
 Theorem C29_model_traces_alive : forall master st cur newid vok c,
@@ -106,6 +127,9 @@ Print Assumptions C29_current_not_removable.
 Print Assumptions C29_remove_keeps_current.
 Print Assumptions C29_same_master.
 Print Assumptions C29_passwd_new_password_opens.
+Print Assumptions C29_opens_iff_at_limit.
+Print Assumptions C29_wrong_hint_costs_nothing.
+Print Assumptions C29_last_key_reached.
 Print Assumptions C29_verification_never_locks_out.
 Print Assumptions C29_verification_sound.
 Print Assumptions C29_search_oracle_sound.
